@@ -133,6 +133,10 @@ func (r *Run) wake(g *Goroutine, idx int, v Value, ok bool) {
 		sg.ch.remove(sg)
 	}
 	g.blocked = nil
+	for _, sg := range b.sudogs {
+		// the woken goroutine synchronises with the channel that woke it
+		r.raceAcquire(g, sg.ch)
+	}
 	b.onWake(idx, v, ok)
 }
 
@@ -156,6 +160,7 @@ func (r *Run) trySend(ch *ChanV, v Value) bool {
 	if ch.closed {
 		panic(goPanic{kind: "close", msg: "send on closed channel"})
 	}
+	r.raceRelease(r.cur, ch)
 	if len(ch.recvq) > 0 {
 		sg := ch.recvq[0]
 		r.wake(sg.g, sg.caseIdx, copyVal(v), true)
@@ -172,6 +177,7 @@ func (r *Run) tryRecv(ch *ChanV) (Value, bool, bool) {
 	if ch == nil {
 		return nil, false, false
 	}
+	r.raceAcquire(r.cur, ch)
 	if len(ch.buf) > 0 {
 		v := ch.buf[0]
 		ch.buf = append(ch.buf[:0:0], ch.buf[1:]...)
@@ -202,6 +208,7 @@ func (r *Run) chanClose(ch *ChanV) {
 		panic(goPanic{kind: "close", msg: "close of closed channel"})
 	}
 	ch.closed = true
+	r.raceRelease(r.cur, ch)
 	for len(ch.recvq) > 0 {
 		sg := ch.recvq[0]
 		r.wake(sg.g, sg.caseIdx, nil, false)
